@@ -16,9 +16,6 @@ func Shrink(spec *Spec, rf *ReplayFile, sig string, budget time.Duration, t *tes
 		c := *rf
 		c.Tape = feed
 		res, tp, _ := RunReplay(spec, &c, false, t, known, scratch, false)
-		if res.Undecided != "" {
-			return nil, false
-		}
 		if HasSig(res, sig) != nil {
 			return append([]Draw(nil), tp.Rec...), true
 		}
